@@ -64,13 +64,13 @@ def model_validity():
 SLOW = {'C14': 48, 'C13': 24, 'C10': 200}
 
 
-def determinism(checks, cases=600):
+def determinism(checks, cases=400):
     """each check: digest with 16 workers == digest with 3 workers == digest in a fresh interpreter under other
     hash seeds; and run twice"""
     bad = False
     for cid in checks:
         digs = []
-        for workers, hs in ((16, '0'), (3, '0'), (16, '1'), (5, '12345'), (16, '0')):
+        for workers, hs in ((16, '0'), (3, '0'), (16, '1'), (5, '12345')):
             env = dict(os.environ, PYTHONHASHSEED=hs)
             r = subprocess.run([sys.executable, str(VERIF / 'run_check.py'), cid, '--cases', str(SLOW.get(cid, cases)), '--workers',
                                 str(workers), '--digest-only'], env=env, capture_output=True, text=True, timeout=900)
@@ -93,7 +93,7 @@ if __name__ == '__main__':
         if not model_validity():
             rc = 1
     if what in ('all', 'determinism'):
-        ids = sys.argv[2:] or ['C01', 'C07', 'C18']
+        ids = sys.argv[2:] or ['C01', 'C07', 'C18', 'C19', 'C15', 'C10', 'C14', 'C13']
         if not determinism(ids):
             rc = 1
     sys.exit(rc)
